@@ -70,8 +70,9 @@ def impl_encode_obj(items, shape):
     side = None
     if len(arg) != len(items) or after != before:
         ch = [(j, b[1], len(b[3]), len(a[3])) for j, (b, a) in enumerate(zip(before, after)) if a != b][:3]
-        side = ("argument-modified", f"encode_list changed the caller's argument (item index, type, value length "
-                f"before, after): {ch}; decode(encode(x)) can no longer equal x")
+        side = ("argument-modified", f"encode_list changed the caller's argument ({len(before)} items before the call, "
+                f"{len(after)} after; changed items as (index, type, value length before, after): {ch}); "
+                f"decode(encode(x)) can no longer equal x")
     else:
         second = call(arg)
         if second != first:
